@@ -408,6 +408,119 @@ type c08LargeErr struct {
 
 func (e *c08LargeErr) Error() string { return e.msg }
 
+// buildLargeFile: blocks of 5, 12000 and 5 records {id, s}; the middle block is
+// about 1.3 MiB and stays large after compression.
+func buildLargeFile(schema ref.Schema, codec string, ci int) ([]byte, ref.FileLayout, error) {
+	var blocks []ref.Block
+	id := int64(0)
+	mk := func(n, strLen int) ref.Block {
+		var payload []byte
+		for i := 0; i < n; i++ {
+			str := make([]byte, strLen)
+			// letters that do not repeat in a pattern: the block stays large after compression
+			// (hundreds of KiB), as real data does
+			x := uint64(id)*0x9e3779b97f4a7c15 + 0x1234567
+			for j := range str {
+				x ^= x << 13
+				x ^= x >> 7
+				x ^= x << 17
+				str[j] = byte('a' + x%26)
+			}
+			payload, _ = (&ref.Encoder{}).Encode(payload, schema, ref.Datum{K: "record", Fields: []ref.Datum{ref.Long(id), {K: "string", S: str}}})
+			id++
+		}
+		return ref.Block{Count: int64(n), Payload: payload}
+	}
+	blocks = append(blocks, mk(5, 20), mk(12000, 105+int(seedVal()%7)), mk(5, 20))
+	fs := ref.FileSpec{Schema: []byte(ref.Render(schema, nil)), Codec: codec, Blocks: blocks}
+	for i := range fs.Sync {
+		fs.Sync[i] = byte(i*17 + ci)
+	}
+	return ref.WriteFile(fs)
+}
+
+// TestC07Large: a file with a block of more than 1 MiB (after a small one, so that
+// buffers have to grow in mid-file): intact, every record is delivered as written;
+// with the large block's marker damaged, an error and nothing but intact records.
+func TestC07Large(t *testing.T) {
+	col := stats.New("C07")
+	col.Rule = c07Rule
+	defer col.Flush()
+	if err := c07Large(col, "", 0, true); err != nil {
+		var lc c08LargeCase
+		if le, ok := err.(*c08LargeErr); ok {
+			lc = le.c
+		}
+		failCase(t, "C07", "c07-large", lc, err)
+	}
+}
+
+func init() {
+	registerReplay("c07-large", func(c c08LargeCase) error { return c07Large(nil, c.Codec, -c.Cut, false) })
+}
+
+func c07Large(col *stats.Collector, onlyCodec string, onlyVariant int, all bool) error {
+	schema := ref.Schema{Kind: "record", Name: "Big", Fields: []ref.Field{{Name: "id", Type: ref.Prim("long")}, {Name: "s", Type: ref.Prim("string")}}}
+	target := spec.Struct(spec.FieldSpec{Go: "ID", JSON: "id", T: spec.T("int64")}, spec.FieldSpec{Go: "S", JSON: "s", T: spec.T("string")})
+	typ := spec.Build(target)
+	for ci, codec := range []string{"null", "deflate", "snappy"} {
+		if onlyCodec != "" && codec != onlyCodec {
+			continue
+		}
+		file, lay, err := buildLargeFile(schema, codec, ci)
+		if err != nil {
+			return fmt.Errorf("VERIF-INCONCLUSIVE %v", err)
+		}
+		_, _, want, err := ref.ReadRecords(file)
+		if err != nil {
+			return fmt.Errorf("VERIF-INCONCLUSIVE %v", err)
+		}
+		var flat []ref.Datum
+		for _, b := range want {
+			flat = append(flat, b...)
+		}
+		for variant := 0; variant < 2; variant++ {
+			if !all && variant != onlyVariant {
+				continue
+			}
+			data := file
+			if variant == 1 {
+				data = append([]byte(nil), file...)
+				data[lay.Blocks[1].PayloadEnd+9] ^= 0x04
+			}
+			n := 0
+			var bad error
+			rerr := avro.ReadFile(bytes.NewReader(data), reflect.New(typ).Elem().Interface(), func(val unsafe.Pointer, rb *avro.ResourceBank) error {
+				v := reflect.NewAt(typ, val).Elem()
+				if bad == nil && (n >= len(flat) || v.Field(0).Int() != flat[n].Fields[0].I || v.Field(1).String() != string(flat[n].Fields[1].S)) {
+					bad = fmt.Errorf("record %d delivered as {%d, %d-byte string}, not as the block declares it", n, v.Field(0).Int(), v.Field(1).Len())
+				}
+				n++
+				rb.Close()
+				return nil
+			})
+			c := c08LargeCase{codec, -variant, len(file)}
+			if col != nil {
+				col.RecordKey(fileKey(file[:64], variant, byte('M'+ci)), true)
+				col.Label("large_block_files")
+			}
+			var ferr error
+			switch {
+			case bad != nil:
+				ferr = fmt.Errorf("%s file with a 1.3 MiB block (variant %d): %v", codec, variant, bad)
+			case variant == 0 && (rerr != nil || n != len(flat)):
+				ferr = fmt.Errorf("intact %s file with a 1.3 MiB block: %d of %d records delivered, error %v", codec, n, len(flat), rerr)
+			case variant == 1 && rerr == nil:
+				ferr = fmt.Errorf("%s file whose 1.3 MiB block is followed by a damaged marker was read without an error", codec)
+			}
+			if ferr != nil {
+				return &c08LargeErr{c, ferr.Error()}
+			}
+		}
+	}
+	return nil
+}
+
 func c08Large(col *stats.Collector, onlyCodec string, onlyCut int) error {
 	schema := ref.Schema{Kind: "record", Name: "Big", Fields: []ref.Field{{Name: "id", Type: ref.Prim("long")}, {Name: "s", Type: ref.Prim("string")}}}
 	target := spec.Struct(spec.FieldSpec{Go: "ID", JSON: "id", T: spec.T("int64")}, spec.FieldSpec{Go: "S", JSON: "s", T: spec.T("string")})
@@ -416,32 +529,7 @@ func c08Large(col *stats.Collector, onlyCodec string, onlyCut int) error {
 		if onlyCodec != "" && codec != onlyCodec {
 			continue
 		}
-		var blocks []ref.Block
-		id := int64(0)
-		mk := func(n, strLen int) ref.Block {
-			var payload []byte
-			for i := 0; i < n; i++ {
-				str := make([]byte, strLen)
-				// letters that do not repeat in a pattern: the block stays large after compression
-				// (hundreds of KiB), as real data does
-				x := uint64(id)*0x9e3779b97f4a7c15 + 0x1234567
-				for j := range str {
-					x ^= x << 13
-					x ^= x >> 7
-					x ^= x << 17
-					str[j] = byte('a' + x%26)
-				}
-				payload, _ = (&ref.Encoder{}).Encode(payload, schema, ref.Datum{K: "record", Fields: []ref.Datum{ref.Long(id), {K: "string", S: str}}})
-				id++
-			}
-			return ref.Block{Count: int64(n), Payload: payload}
-		}
-		blocks = append(blocks, mk(5, 20), mk(12000, 105+int(seedVal()%7)), mk(5, 20))
-		fs := ref.FileSpec{Schema: []byte(ref.Render(schema, nil)), Codec: codec, Blocks: blocks}
-		for i := range fs.Sync {
-			fs.Sync[i] = byte(i*17 + ci)
-		}
-		file, lay, err := ref.WriteFile(fs)
+		file, lay, err := buildLargeFile(schema, codec, ci)
 		if err != nil {
 			return fmt.Errorf("VERIF-INCONCLUSIVE %v", err)
 		}
